@@ -8,10 +8,63 @@ TRUST = ("Trusted base: Go, cosmos-sdk v0.47.12 (baseapp cache/commit semantics,
          "bounded by the alphabets, depths and seeds listed in evidence.")
 
 # id -> (engine, category, technique, text, design_ref, note)
+A_TECH = "explicit-state BFS over the real handlers (state = hash of all raw KV pairs + block time + monitor ghost); "
+B_TECH = "bounded-exhaustive input enumeration against an independent reference (math/big, hand-written recognisers)"
 CHECKS = {
- "C01": ("A", "model_checking", "explicit-state BFS over the real handlers (state = hash of all raw KV pairs), invariant on every distinct state",
-         "All event sequences up to the stated depth over five alphabets (core, basket, market, bridge, 34-digit amounts) from prepared and near-initial seeds are executed on the real modules with a real bank keeper; on every distinct state the exact-rational conservation sums, the amount well-formedness and the chain's own registered batch-supply invariant are checked.",
+ "C01": ("A", "model_checking", A_TECH + "invariant on every distinct state",
+         "All event sequences up to the stated depth over five alphabets (core, basket, market, bridge, 34-digit amounts) from prepared and near-initial seeds are executed on the real modules with a real bank keeper; on every distinct state the exact-rational conservation sums, amount well-formedness and the chain's own registered batch-supply invariant are checked.",
          "§7 C01", TRUST),
+ "C02": ("A", "model_checking", A_TECH + "ghost ledger of issued amounts + frame monitor on every transition",
+         "Same alphabets as C01; a ghost ledger fed from accepted CreateBatch/Mint/BridgeReceive contents is compared with T+R+C on every state, and every non-issuing transition (failed ones and block boundaries included) must leave T+R+C of every batch unchanged; sealed batches are frozen.",
+         "§7 C02", TRUST),
+ "C03": ("A", "model_checking", A_TECH + "frame condition over every third party on every transition",
+         "For every successful message and every block boundary, every account that did not sign (module accounts included), every batch and every bank denom is compared before/after; the only admitted decreases are the exact escrow drop of a filled seller and fee-pool debits signed by the authority.",
+         "§7 C03", TRUST),
+ "C04": ("A", "model_checking", A_TECH + "monotonicity monitor on every transition",
+         "Retired balances, retired supply and cancelled supply are compared across every transition of the C01 alphabets from seeds in which every written row already carries a retired amount; per-handler counters prove each writer was exercised on such rows.",
+         "§7 C04", TRUST),
+ "C05": ("A", "model_checking", A_TECH + "exact backing invariant on every state + mint/burn monitors",
+         "Basket alphabets incl. 34-digit puts (totals beyond 34 significant digits): bank supply of each basket denom equals the exact-rational sum of basket balances x 10^precision on every state; Put/Take mint/burn/release exactly; the registered basket-supply invariant must never report a failure.",
+         "§7 C05", TRUST),
+ "C06": ("A", "model_checking", A_TECH + "escrow = open orders invariant on every state",
+         "Market and expiry alphabets (sell, update up/down/denom change, cancel, partial/full/multi fills, expiry, allowed-denom changes): per (account,batch) escrow equals the sum of open order quantities, orders are well-formed, and each created/updated order's ask denom was allowed in the pre-state.",
+         "§7 C06", TRUST),
+ "C07": ("A", "model_checking", A_TECH + "many seeds (fee-rate pairs x order histories) x wide one-step BuyDirect alphabet, exact-rational settlement oracle",
+         "Every successful BuyDirect is recomputed from the pre-state order, fee params and request in exact rationals: credits to the buyer (retired iff auto-retire), escrow/order shrink, seller payment and fee within one base unit per fill, buyer debit = payouts and <= exact total, max fee >= floor(buyer fee), nothing else moves.",
+         "§7 C07", TRUST + " Alphabet bound: ask x quantity below 34 significant digits."),
+ "C08": ("A", "model_checking", A_TECH + "role table evaluated in the pre-state + row-level footprint diff on every accepted message",
+         "Every message type of the three ecocredit services and the data service is sent by every account (holder, former holder, holder of the same role elsewhere, stranger, authority) from plain and role-rotated seeds; acceptance requires the role in the pre-state, the row diff must stay inside the message's write set, unimplemented RPCs must fail, sealed batches never change.",
+         "§7 C08, Appendix A", TRUST),
+ "C09": ("A", "model_checking", A_TECH + "genesis export/validate/import/re-export round trip on every distinct state",
+         "On every distinct state of a boundary-input alphabet (equal dates, epoch and pre-1970 dates, maximal lengths, public resolvers, zero fees) and of the core/market/basket alphabets: ExportGenesis of both modules, the modules' ValidateGenesis, InitGenesis into a fresh chain, byte-identical re-export, registered invariants on the imported chain.",
+         "§7 C09", TRUST + " Two recorded findings (known_findings.txt) are printed as KNOWN-FINDING."),
+ "C11": ("A", "model_checking", A_TECH + "admission iff-oracle and oldest-first drain oracle on every Put/Take",
+         "Six baskets (every date-criteria variant, auto-retire on/off) x batches with start dates on, 1 ns/1 s before and after each boundary (epoch and pre-1970 included, ties, denom order != date order) x block-time steps and governance updates of the criteria: Put succeeds iff the oracle's admission predicate holds; Take equals the oracle's oldest-first drain; auto-retire baskets deliver retired credits.",
+         "§7 C11", TRUST + " Alphabet bound: amounts below 34 significant digits."),
+ "C12": ("A", "model_checking", A_TECH + "begin-block monitor on every block boundary",
+         "Expiry alphabet (several orders per seller/batch, expiry = block time, +1 ns, after update / partial fill, gaps of 5 s..1 y): BeginBlock never panics or errors, removes exactly the orders due, refunds exactly their quantities to their sellers, leaves the others byte-identical; no expired order is ever bought.",
+         "§7 C12", TRUST + " Block times after the Unix epoch."),
+ "C13": ("A", "model_checking", A_TECH + "ghost set of consumed origin txs and contract bindings",
+         "Bridge alphabet (three issuing entry points, replays across entry points/classes/contracts/letter case, allow-list changes, bridge out): no (class,id,source) issues twice, receipts only from allowed chains, a bound contract always mints into its batch, Bridge out cancels exactly and reports the batch's contract in one event per credit.",
+         "§7 C13", TRUST + " Origin tx identity is the literal (id, source) pair."),
+ "C14": ("A+B", "model_checking", A_TECH + "id ghost (consecutive numbering) + referential integrity on every state; plus " + B_TECH + " for formats",
+         "Creation histories with failing creations interleaved from a fresh chain and from a valid genesis with counters at 9/99/999 and three credit types: ids unique, accepted by the chain's validators, parsers recover parents, numbered consecutively by successful creations only, all listed references resolve. Format part: formatted ids and all short strings / edit neighbours against a hand-written recogniser.",
+         "§7 C14", TRUST),
+ "C15": ("B", "exploration", B_TECH,
+         "All 65536+ values of every numeric field, every hash length 19..65, extension strings, and parser-side edit neighbours / synthetic base58check payloads: round trip identity, injectivity over all valid hashes enumerated, accepted IRIs re-encode identically.",
+         "§7 C15", "Trusted base: Go, base58 library used only to build inputs. gRPC wrappers ConvertHashToIRI/ConvertIRIToHash are not exercised."),
+ "C16": ("A", "model_checking", A_TECH + "ghost of first-anchor times / attestations / registrations, injected weak ID hashers",
+         "Data-module alphabet (Anchor/Attest/DefineResolver/RegisterResolver, 6 content hashes, 3 signers, time steps) under the production hasher and under constant / few-output / repeating-byte digests with MinLength 1,4,8 built with the repository's own hasher constructor: ids of distinct IRIs differ and never change, first timestamps are permanent, registrations are never lost, only managers register to private resolvers.",
+         "§7 C16", TRUST + " Uses the verif-tagged constructor hook."),
+ "C18": ("A", "model_checking", "exhaustive product of accepted parameter configurations x user operations executed on the real handlers (two acceptance paths: governance messages, genesis validation+import)",
+         "Every configuration of the parameter alphabet that a path accepts is followed by CreateClass, basket Create (several offers each), Sell+BuyDirect per allowed denom, Put+Take: operations whose preconditions hold must succeed without panic, creation fees are debited and burned exactly, underpaid/unfunded creations are rejected, no fee set => nothing charged.",
+         "§7 C18", TRUST),
+ "C19": ("B", "exploration", B_TECH + " + operation-sequence search for aliasing",
+         "~500 (thorough ~2000) decimal literals, all ordered pairs x 14 operations against big.Rat, operand immutability checked on the internal apd words, and a BFS over operation sequences on a shared pool for big.Int aliasing.",
+         "§7 C19", "Trusted base: Go math/big."),
+ "C20": ("B", "exploration", "exhaustive product of inputs x environment answers against recording fakes of the ICA controller and capability keepers",
+         "Owners x connections x message shapes x block times x channel/capability availability x SendTx outcome on the real keeper.SubmitTx: one packet on the owner's own port with exactly the inner message and timeout = block time + 60 s, or no send and an error.",
+         "§7 C20", "Trusted base: ibc-go packet (de)serialisation used to decode the recorded packet (cross-checked by a hand-written wire reader)."),
 }
 
 PENDING_REASON = "check not built yet in this session (under construction; see DESIGN.md §7 for the planned model-checking design)"
@@ -48,8 +101,10 @@ def main():
             "add_only": True,
         },
         "engines": [
-            {"name": "A", "path": "harness/explore", "serves_properties": sorted(k for k, v in CHECKS.items() if v[0] == "A"),
+            {"name": "A", "path": "harness/explore", "serves_properties": sorted(k for k, v in CHECKS.items() if "A" in v[0]),
              "kind_free_text": "explicit-state breadth-first model checker whose transition relation is the real regen-ledger modules + SDK bank/auth over IAVL; path replay on cache branches; full-state hashing"},
+            {"name": "B", "path": "harness/pure", "serves_properties": sorted(k for k, v in CHECKS.items() if "B" in v[0]),
+             "kind_free_text": "bounded-exhaustive enumerators of pure functions (formats, IRIs, decimals, intertx) against independent references"},
         ],
         "checks": checks,
         "not_applicable": na,
